@@ -10,7 +10,7 @@ from libertem_blobfinder.common import correlation as cc
 PROP = "C15"
 LEAN_MODULE = "BlobfinderModel.Properties.C15"
 GEN_FILES = ["Eval"]
-FRAGMENTS = ["log_scale", "dtypes"]
+FRAGMENTS = ["log_scale", "dtypes", "wrappers_text"]
 DRIVER = "drvcorr"
 DTYPES = ["uint8", "uint16", "uint32", "uint64", "int8", "int16", "int32", "int64", "float32", "float64"]
 RULE = ("correspondence: the model's dtype table (promotion with float32, value range) vs the live NumPy for all ten "
